@@ -6,7 +6,8 @@ BUDGET_S = {'quick': 150, 'thorough': 1800}
 SHAPE_WALL_S = {'quick': 60, 'thorough': 300}
 FAMILY = ('UNIT-A: field layouts (size, byte_align, endian) enumerated, every field value symbolic; PIPE-B: generated ISA '
           'definitions (every operand type, prefix/suffix code position, opcode suffix, reverse options, per-field endianness '
-          'and alignment) with symbolic opcode/operand-code/dictionary values, operand values and statement address')
+          'and alignment) with symbolic opcode/operand-code/dictionary values, operand values and statement address; plus seeded '
+          'random ISA structures (0-3 operand sets of 1-3 members drawn from every operand type, random sizes/positions/flags)')
 BOUNDS = {'field_value': '-(2^(size+1)) <= v <= 2^(size+2)', 'bitvector_width': 96, 'fields_per_layout': '1..4',
           'sizes': '1..64'}
 ASSUMPTIONS = ['bit order inside a byte: most significant bit first (documented for big endian; for little endian '
@@ -15,5 +16,5 @@ from sx.shims import STUBS  # noqa
 
 
 def shapes(tier, seed):
-    from .isa_templates import instr_shapes
-    return instr_shapes(tier, seed, ['C01']) + unit_encode.layouts(tier, seed, ['C01'])
+    from .isa_templates import instr_shapes, random_instr_shapes
+    return instr_shapes(tier, seed, ['C01']) + random_instr_shapes(tier, seed, ['C01']) + unit_encode.layouts(tier, seed, ['C01'])
